@@ -32,7 +32,8 @@ Op ==
          executed == r.f # "fail"
          step == IF r.op = "resign" THEN ResignAt(store, now, i) ELSE CampaignAt(store, now, i, ttl)
          st2 == IF executed THEN step[1] ELSE store
-         expRes == IF r.f # "ok" THEN "err"
+         late == r.f = "late"    \* executed; the reply came after the caller's deadline: the truth, or an error
+         expRes == IF r.f \notin {"ok", "late"} THEN "err"
                    ELSE IF r.op = "campaign" THEN (IF step[2] = 1 THEN "leader" ELSE "follower")
                    ELSE IF r.op = "renew" THEN (IF step[2] = 1 THEN "ok" ELSE "notleader")
                    ELSE "ok"
@@ -42,7 +43,7 @@ Op ==
          bad == (IF toldLeader /\ expRes \notin {"leader", "ok"} THEN {"C15_ToldLeaderWithoutLease"} ELSE {})
                 \cup (IF toldLeader /\ others # {} THEN {"C15_TwoLeaders"} ELSE {})
                 \cup (IF r.op = "renew" /\ r.res = "ok" /\ expRes = "notleader" THEN {"C15_FailedRenewalNotReported"} ELSE {})
-                \cup (IF r.res # expRes /\ ~toldLeader THEN {"C15_ReplyDiffers"} ELSE {})
+                \cup (IF r.res # expRes /\ ~toldLeader /\ ~(late /\ r.res = "err") THEN {"C15_ReplyDiffers"} ELSE {})
                 \cup (IF r.holder # HolderOf(st2, now) THEN
                         (IF r.op = "resign" /\ HolderOf(st2, now) # None /\ r.holder = None THEN {"C15_ResignReleasedForeignLease"}
                          ELSE {"C15_StoreHolderDiffers"}) ELSE {})
